@@ -105,6 +105,10 @@ func genHistory(t *simrt.Tape, cfg histCfg) *History {
 	default:
 		k = NewKaudit() // unrelated epoch (ahead of the daemon's clock)
 	}
+	if t.Choose(8, "kernel.serial") == 7 {
+		// the kernel's 32-bit audit serial number wraps around inside the history
+		k.NearSerialWrap(t.Choose(12, "kernel.serial.before"))
+	}
 	w := &L1World{}
 	n := 1 + t.Choose(cfg.MaxSessions, "nsessions")
 	for si := 0; si < n; si++ {
